@@ -1,172 +1,15 @@
 (* Dispatch.v — one entry point for the harness: (property, function, arguments, observed output) ↦ verdict.
-   corr = the executable model's output equals the implementation's observed output (projected observables);
-   prop = the property's boolean checker accepts the implementation's observed output. *)
-From Coq Require Import ZArith String List Bool Floats.
-From SID Require Import Base Str Ids Wire Shift F64 ExactRef PointF VertexF.
+   Each property owns a table of entries in its own DCxx.v; this file only selects the table. *)
+From Coq Require Import String List.
+From SID Require Import Wire DC01 DC02 DC07.
 Import ListNotations.
 Open Scope string_scope.
 
-Definition oracle_t := string -> list val -> val.
+Definition tables : list (string * table) :=
+  [("C01", table_C01); ("C02", table_C02); ("C07", table_C07)].
 
-  Definition d_shift (args : list val) (obs : val) : verdict :=
-    match args, obs with
-    | [VS id; VZ dx; VZ dy; VZ dv], VS o =>
-        let m := shift_api id dx dy dv in
-        mkv (String.eqb m o) (check_shift id dx dy dv o) "-" (VS m)
-    | _, _ => bad_case
-    end.
-
-  (* laws between calls: [s1; s2 = shift s1 b; s12 = shift id (a+b); back = shift s1 (-a); zero = shift id 0] *)
-  Definition shift_laws_model (id : string) (a1 a2 a3 b1 b2 b3 : Z) : list string :=
-    let s1 := shift_api id a1 a2 a3 in
-    [s1; shift_api s1 b1 b2 b3; shift_api id (a1 + b1) (a2 + b2) (a3 + b3); shift_api s1 (- a1) (- a2) (- a3); shift_api id 0 0 0].
-  Definition check_shift_laws (id : string) (a1 a2 a3 b1 b2 b3 : Z) (o : list string) : bool :=
-    match o with
-    | [s1; s2; s12; back; zero] =>
-        let norm := match parse_eid id with Some i => print_eid i | None => EmptyString end in
-        check_shift id a1 a2 a3 s1 && String.eqb s2 s12 && String.eqb back norm && String.eqb zero norm
-    | _ => false
-    end.
-  Definition d_shift_laws (args : list val) (obs : val) : verdict :=
-    match args, as_LS obs with
-    | [VS id; VZ a1; VZ a2; VZ a3; VZ b1; VZ b2; VZ b3], Some o =>
-        let m := shift_laws_model id a1 a2 a3 b1 b2 b3 in
-        mkv (same_list m o) (check_shift_laws id a1 a2 a3 b1 b2 b3 o) "-" (of_LS m)
-    | _, _ => bad_case
-    end.
-
-  (* ---------- floats: points and vertices ---------- *)
-  Definition ofun (oracle : oracle_t) (name : string) (x : float) : float :=
-    match oracle name [VF x] with VF r => r | _ => nan end.
-  Definition as_point (v : val) : option point :=
-    match v with
-    | VL [VF a; VF b; VF c] => Some {| plon := a; plat := b; palt := c |}
-    | _ => None
-    end.
-  Definition of_point (p : point) : val := VL [VF (plon p); VF (plat p); VF (palt p)].
-  (* list of points where VNil marks a nil pointer; returns (has_nil, non-nil points) *)
-  Fixpoint as_points (l : list val) : option (bool * list point) :=
-    match l with
-    | [] => Some (false, [])
-    | VNil :: r => match as_points r with Some (_, t) => Some (true, t) | None => None end
-    | v :: r => match as_point v, as_points r with Some p, Some (b, t) => Some (b, p :: t) | _, _ => None end
-    end.
-  Definition res_strings (r : result (list string)) : val :=
-    match r with Ok l => of_LS l | Err => VE VNil end.
-  (* observed (list, error) against a model result: same error flag, and on success the same list (in order / as a set) *)
-  Definition corr_list (ordered : bool) (m : result (list string)) (obs : val) : bool :=
-    match m, obs with
-    | Err, VE _ => true
-    | Ok l, _ => match (if is_err obs then None else as_LS obs) with
-                 | Some o => if ordered then same_list l o else same_set l o
-                 | None => false end
-    | _, _ => false
-    end.
-
-  (* C01 checker on observed IDs: exact x and f from the float's dyadic value, y in range, zooms as requested *)
-  Definition check_point_id (p : point) (h v : Z) (s : string) : bool :=
-    match parse_eid s, exact_x (plon p) h, exact_f (palt p) v with
-    | Some i, Some x, Some f =>
-        (eh i =? h)%Z && (ev i =? v)%Z && (ex i =? x)%Z && (ef i =? f)%Z && (0 <=? ey i)%Z && (ey i <? 2 ^ h)%Z &&
-        (0 <=? ex i)%Z && (ex i <? 2 ^ h)%Z
-    | _, _, _ => false
-    end.
-  Fixpoint check_point_ids (ps : list point) (h v : Z) (o : list string) : bool :=
-    match ps, o with
-    | [], [] => true
-    | p :: ps', s :: o' => check_point_id p h v s && check_point_ids ps' h v o'
-    | _, _ => false
-    end.
-  (* finding classes: the bit-exact model itself differs from the exact reference (two roundings before the floor / underflow) *)
-  Definition class_point (tanf cosf logf : float -> float) (p : point) (h v : Z) : string :=
-    match x_f (plon p) h, exact_x (plon p) h, f_f (palt p) v, exact_f (palt p) v with
-    | Some x, Some x', Some f, Some f' =>
-        if negb (f =? f')%Z then "alt_underflow" else if negb (x =? x')%Z then "x_rounding" else "-"
-    | _, _, _, _ => "-"
-    end.
-  Fixpoint class_points tanf cosf logf (ps : list point) (h v : Z) : string :=
-    match ps with
-    | [] => "-"
-    | p :: r => let c := class_point tanf cosf logf p h v in if String.eqb c "-" then class_points tanf cosf logf r h v else c
-    end.
-  Definition in_domain_point (p : point) : bool :=
-    (abs (plon p) <=? 180)%float && (abs (plat p) <=? c_latmax)%float && (abs (palt p) <=? pow2f 25)%float.
-
-  Definition d_points (oracle : oracle_t) (sid : bool) (args : list val) (obs : val) : verdict :=
-    match args with
-    | [VL pl; VZ h; VZ v] =>
-        match as_points pl with
-        | Some (has_nil, ps) =>
-            let tanf := ofun oracle "tan" in let cosf := ofun oracle "cos" in let logf := ofun oracle "log" in
-            let m := if sid then points_sid_api tanf cosf logf has_nil ps h else points_api tanf cosf logf has_nil ps h v in
-            let corr := corr_list true m obs in
-            let expect_err := negb (check_zoom h && check_zoom v) || has_nil in
-            let prop :=
-              if expect_err then is_err obs
-              else if negb (forallb in_domain_point ps) then true     (* outside the documented domain nothing is claimed *)
-              else match (if is_err obs then None else as_LS obs) with
-                   | Some o =>
-                       if sid then match sids_to_eids o with Ok e => check_point_ids ps h v e | Err => false end
-                       else check_point_ids ps h v o
-                   | None => false end in
-            let cls := if corr && negb prop then class_points tanf cosf logf ps h v else "-" in
-            mkv corr prop cls (res_strings m)
-        | None => bad_case
-        end
-    | _ => bad_case
-    end.
-
-  (* NewPoint: observed = [lon; lat; alt] of the returned object, wrapped in VE when an error was returned *)
-  Definition check_new_point (lon lat alt : float) (obs : val) : bool :=
-    let bad := (180 <? abs lon)%float || (c_latmax <? abs (setlat_trunc lat))%float in
-    if bad then is_err obs
-    else match obs with
-         | VL [VF a; VF b; VF c] =>
-             feqb_bits a lon && feqb_bits c alt &&
-             (* latitude cut toward zero by less than 1e-10, decided exactly; same sign *)
-             exact_cut_ok lat b && ((0 <=? lat)%float && (0 <=? b)%float || (lat <=? 0)%float && (b <=? 0)%float)
-         | _ => false
-         end.
-  Definition d_new_point (args : list val) (obs : val) : verdict :=
-    match args with
-    | [VF lon; VF lat; VF alt] =>
-        let '(p, e) := new_point lon lat alt in
-        let m := if e then VE (of_point p) else of_point p in
-        let corr := match obs, e with
-                    | VE (VL [VF a; VF b; VF c]), true => feqb_bits a (plon p) && feqb_bits b (plat p) && feqb_bits c (palt p)
-                    | VL [VF a; VF b; VF c], false => feqb_bits a (plon p) && feqb_bits b (plat p) && feqb_bits c (palt p)
-                    | _, _ => false end in
-        let prop := check_new_point lon lat alt obs in
-        mkv corr prop (if corr && negb prop then "setlat_inexact" else "-") m
-    | _ => bad_case
-    end.
-
-  Definition of_points (l : list point) : val := VL (map of_point l).
-  Fixpoint points_eqb (a : list point) (b : list val) : bool :=
-    match a, b with
-    | [], [] => true
-    | p :: a', VL [VF x; VF y; VF z] :: b' => feqb_val x (plon p) && feqb_val y (plat p) && feqb_val z (palt p) && points_eqb a' b'
-    | _, _ => false
-    end.
-  Definition d_point_on_id (oracle : oracle_t) (sid : bool) (args : list val) (obs : val) : verdict :=
-    match args with
-    | [VS id; VZ opt] =>
-        let sinhf := ofun oracle "sinh" in let atanf := ofun oracle "atan" in
-        let m := if sid then point_on_sid_api sinhf atanf id opt else point_on_eid_api sinhf atanf id opt in
-        let corr := match m, obs with
-                    | Err, VE _ => true
-                    | Ok l, VL o => points_eqb l o
-                    | _, _ => false end in
-        mkv corr corr "-" (match m with Ok l => of_points l | Err => VE VNil end)
-    | _ => bad_case
-    end.
-
-  Definition dispatch (oracle : oracle_t) (prop fn : string) (args : list val) (obs : val) : verdict :=
-    if String.eqb fn "GetShiftingSpatialID" then d_shift args obs
-    else if String.eqb fn "ShiftLaws" then d_shift_laws args obs
-    else if String.eqb fn "GetExtendedSpatialIdsOnPoints" then d_points oracle false args obs
-    else if String.eqb fn "GetSpatialIdsOnPoints" then d_points oracle true args obs
-    else if String.eqb fn "NewPoint" then d_new_point args obs
-    else if String.eqb fn "GetPointOnExtendedSpatialId" then d_point_on_id oracle false args obs
-    else if String.eqb fn "GetPointOnSpatialId" then d_point_on_id oracle true args obs
-    else bad_case.
+Definition dispatch (oracle : oracle_t) (prop fn : string) (args : list val) (obs : val) : verdict :=
+  match find (fun e => String.eqb (fst e) prop) tables with
+  | Some (_, t) => run_table t oracle fn args obs
+  | None => bad_case
+  end.
